@@ -510,6 +510,8 @@ struct mcase_t
 std::vector<int>      g_delays;
 std::atomic<uint64_t> g_delay_cursor{0};
 
+constexpr uint64_t max_perturbations = 2000; // per case: keeps a run short on a loaded machine
+
 void schedule_hook(int, const void*, std::size_t)
 {
     const auto n = g_delays.size();
@@ -517,17 +519,19 @@ void schedule_hook(int, const void*, std::size_t)
     {
         return;
     }
-    const auto delay = g_delays[g_delay_cursor.fetch_add(1, std::memory_order_relaxed) % n];
+    const auto k = g_delay_cursor.fetch_add(1, std::memory_order_relaxed);
+    if (k >= max_perturbations)
+    {
+        return;
+    }
+    const auto delay = g_delays[k % n];
     if (delay <= 0)
     {
         return;
     }
-    if (delay <= 4)
+    if (delay == 1)
     {
-        for (int i = 0; i < delay; ++i)
-        {
-            std::this_thread::yield();
-        }
+        std::this_thread::yield();
     }
     else
     {
@@ -557,6 +561,36 @@ struct hook_guard_t
     hook_guard_t(const hook_guard_t&)            = delete;
     hook_guard_t& operator=(const hook_guard_t&) = delete;
 };
+
+// ml::tune creates one log file per (trial, fold) in $TMPDIR: tens of files per case, which is slow on a disk-backed
+// directory.  Use a per-process directory on tmpfs when there is one (removed at exit; the files are removed per case).
+std::string g_scratch;
+
+void use_fast_scratch_dir()
+{
+    static bool done = false;
+    if (done)
+    {
+        return;
+    }
+    done = true;
+    std::error_code ec;
+    if (std::filesystem::is_directory("/dev/shm", ec))
+    {
+        const auto dir = "/dev/shm/verif-c13." + std::to_string(static_cast<long>(::getpid()));
+        if (std::filesystem::create_directories(dir, ec) || std::filesystem::is_directory(dir, ec))
+        {
+            g_scratch = dir;
+            ::setenv("TMPDIR", dir.c_str(), 1);
+            std::atexit(
+                []
+                {
+                    std::error_code ignored;
+                    std::filesystem::remove_all(g_scratch, ignored);
+                });
+        }
+    }
+}
 
 std::vector<long> to_vector(const nano::indices_t& indices)
 {
@@ -609,6 +643,7 @@ verdict_t check_tune(const mcase_t& c, ctx_t& ctx)
         }
     }
 
+    use_fast_scratch_dir();
     nano::verif::rng_state().store(0x51ED270BULL + static_cast<uint64_t>(c.split_seed));
     ::setenv("NANO_VERIF_MAX_THREADS", std::to_string(c.threads).c_str(), 1);
 
@@ -619,7 +654,8 @@ verdict_t check_tune(const mcase_t& c, ctx_t& ctx)
     }
 
     // deterministic outputs: level(params) + noise(sample, fold); multiples of 1/64, so that sums are exact
-    const auto level_of = [&](const std::vector<double>& params)
+    // (the four tensors order the trials differently, so that an optimum taken from the wrong tensor shows)
+    const auto level_of = [&](const std::vector<double>& params, const size_t centre)
     {
         double bowl = 0.0;
         for (size_t j = 0; j < d; ++j)
@@ -627,7 +663,7 @@ verdict_t check_tune(const mcase_t& c, ctx_t& ctx)
             const auto& grid = c.grids[j];
             const auto  u    = (params[j] - grid.front()) / (grid.back() - grid.front());
             const auto  a    = 0.5 + 2.0 * std::fabs(c.coeffs[j]);
-            const auto  cj   = 0.5 * (c.coeffs[2 + j] + 1.0);
+            const auto  cj   = 0.5 * (c.coeffs[centre + j] + 1.0);
             bowl += a * (u - cj) * (u - cj);
         }
         // bowl in [0, 5]: quantise into `levels` steps, then onto multiples of 1/64
@@ -656,15 +692,16 @@ verdict_t check_tune(const mcase_t& c, ctx_t& ctx)
     {
         // row 0: errors, row 1: losses; split 0: training, 1: validation
         nano::tensor2d_t values(2, static_cast<tensor_size_t>(ids.size()));
-        const auto       level  = level_of(params);
+        const auto       level1 = level_of(params, 2);
+        const auto       level2 = level_of(params, 4);
         const auto       offset = static_cast<double>(key % 97) / 4.0;
         for (size_t i = 0; i < ids.size(); ++i)
         {
             const auto s = static_cast<uint64_t>(ids[i]);
             values(0, static_cast<tensor_size_t>(i)) =
-                (split == 0 ? 1000.0 : 0.0) + level + offset + static_cast<double>((s * 7 + key) % 16) / 64.0;
+                (split == 0 ? 1000.0 + (5.0 - level1) : level1) + offset + static_cast<double>((s * 7 + key) % 16) / 64.0;
             values(1, static_cast<tensor_size_t>(i)) =
-                (split == 0 ? 2000.0 : 3000.0) + 2.0 * level + offset + static_cast<double>((s * 5 + key) % 32) / 64.0;
+                (split == 0 ? 2000.0 + (5.0 - level2) : 3000.0 + level2) + offset + static_cast<double>((s * 5 + key) % 32) / 64.0;
         }
         return values;
     };
@@ -985,7 +1022,11 @@ rc::Gen<mcase_t> gen_tune()
                                                 return rc::gen::just(std::vector<int>{});
                                             }
                                             return rc::gen::mapcat(gen::range<size_t>(5, 64), [=](const size_t n)
-                                                                   { return rc::gen::container<std::vector<int>>(n, gen::range<int>(0, style == 1 ? 4 : 60)); });
+                                                                   {
+                                                                       return rc::gen::container<std::vector<int>>(
+                                                                           n, style == 1 ? rc::gen::element(0, 0, 0, 0, 1)
+                                                                                         : style == 2 ? rc::gen::element(0, 0, 1, 5, 20, 60) : gen::range<int>(0, 60));
+                                                                   });
                                         });
     return rc::gen::mapcat(
         gen::range<size_t>(0, 2),
